@@ -151,9 +151,30 @@ def gen(rng, idx, tier):
     lib = {}
     if uvs:
         lib["public.unicodeVariationSequences"] = uvs
-    return {"stratum": stratum, "dup": dup,
-            "ufo": {"glyphs": glyphs, "glyphOrder": stored, "lib": lib,
-                    "info": {"unitsPerEm": 1000, "familyName": "T", "styleName": "R"}},
+    layers, extra_glyphs = None, []
+    real = [g for g in glyphs if g["name"] != ".notdef"]
+    if stratum == "default" and len(real) >= 2 and rng.random() < 0.06:
+        # a colour font: glyph A is mapped (in its own lib) to a colour layer in which it is a
+        # composite of B; the layer's B is encoded.  The compiler adds 'A.<layer>' and
+        # 'B.<layer>' to the glyph set - alternates that must never enter the character map
+        ga, gb = rng.sample(real, 2)
+        lname = rng.choice(["color1", "red"])
+        if not any(g["name"] in (ga["name"] + "." + lname, gb["name"] + "." + lname) for g in glyphs):
+            tri = [[[0, 0, "line"], [100, 0, "line"], [50, 80, "line"]]]
+            lcp = gb["unicodes"][:1] or [next(c for c in range(0xE100, 0xE200) if c not in used)]
+            layers = {lname: [
+                {"name": ga["name"], "width": ga["width"], "unicodes": list(ga["unicodes"][:1]),
+                 "contours": [], "components": [{"base": gb["name"], "t": [1, 0, 0, 1, 10, 0]}],
+                 "anchors": []},
+                {"name": gb["name"], "width": gb["width"], "unicodes": lcp, "contours": tri,
+                 "components": [], "anchors": []}]}
+            ga.setdefault("lib", {})["com.github.googlei18n.ufo2ft.colorLayerMapping"] = [[lname, 0]]
+            lib["com.github.googlei18n.ufo2ft.colorPalettes"] = [[[1, 0, 0, 1]]]
+            extra_glyphs = [ga["name"] + "." + lname, gb["name"] + "." + lname]
+    return {"stratum": stratum, "dup": dup, "extra_glyphs": extra_glyphs,
+            "ufo": dict({"glyphs": glyphs, "glyphOrder": stored, "lib": lib,
+                         "info": {"unitsPerEm": 1000, "familyName": "T", "styleName": "R"}},
+                        **({"layers": layers} if layers else {})),
             "arg": arg, "lib": rng.choice(["defcon", "ufoLib2"]),
             "fmt": rng.choice(["ttf", "otf"]), "disk": rng.random() < 0.2}
 
@@ -203,7 +224,9 @@ def run(case):
             return {"status": "inconclusive", "counters": {"disk_write_failed": 1}}
     try:
         stored = list(font.glyphOrder)
-        names = [g["name"] for g in spec["glyphs"]]
+        names = [g["name"] for g in spec["glyphs"]] + list(case.get("extra_glyphs") or [])
+        if case.get("extra_glyphs"):
+            bump("colour_layer_fonts")
         kw = dict(useProductionNames=False)
         if case["arg"] is not None:
             kw["glyphOrder"] = list(case["arg"])
